@@ -182,8 +182,8 @@ type streamBody func(x *engine.Exec, c *StreamCase)
 // streamFamilies enumerates the shared space of well-formed event streams (DESIGN §4):
 // tree shapes, scalar sweep, string sweep, length sweep, extended events; each x codec (x JSON options).
 func streamFamilies(tier string, run streamBody) []engine.Family {
-	maxNodes := tierPick(tier, 4, 5)
-	nLeaves := tierPick(tier, 3, 5)
+	maxNodes := tierPick(tier, 4, 6)
+	nLeaves := tierPick(tier, 3, 4)
 	leaves := gen.ScalarLeaves(nLeaves)
 	keys := []string{"a", "b"}
 	ints := gen.IntEvents()
@@ -212,7 +212,16 @@ func streamFamilies(tier string, run streamBody) []engine.Family {
 		return x.Choose(2) // escapeHTML on/off
 	}
 
-	return []engine.Family{
+	fams := []engine.Family{}
+	if sweep := sweepFloat32; tier == "thorough" && sweep != nil {
+		// ALL 2^32 float32 bit patterns as a top-level scalar through each codec; one execution sweeps 2^24 patterns
+		fams = append(fams, engine.Family{Name: "float32-all-bit-patterns", Arity: []int{3, 256}, Body: func(x *engine.Exec) {
+			cd := codecs[x.Choose(3)]
+			hi := uint32(x.Choose(256))
+			sweep(x, cd, hi)
+		}})
+	}
+	return append(fams, []engine.Family{
 		{Name: "trees", Arity: []int{3, nLeaves + 4}, Body: func(x *engine.Exec) {
 			cd := codecs[x.Choose(3)]
 			t := gen.Tree(x, &gen.TreeOpts{MaxNodes: maxNodes, Leaves: leaves, Keys: keys})
@@ -286,5 +295,8 @@ func streamFamilies(tier string, run streamBody) []engine.Family {
 			want, _ := model.ValueOf(evs)
 			run(x, &StreamCase{Codec: cd, Opts: 0, Evs: evs, Want: want, Fam: "ext", Class: leafClass(ev)})
 		}},
-	}
+	}...)
 }
+
+// sweepFloat32, when set by a check, is run by the thorough tier for every (codec, top byte).
+var sweepFloat32 func(x *engine.Exec, cd *Codec, hi uint32)
